@@ -24,8 +24,18 @@ impl TimeSource for ManualTime {
 pub type State = ShardedActorState<ManualTime>;
 
 pub fn new_state(shards: usize) -> (State, ManualTime) {
+    new_state_via(shards, false)
+}
+
+/// `perf`: build the state the way the real server does, from a PerformanceConfig (all defaults)
+pub fn new_state_via(shards: usize, perf: bool) -> (State, ManualTime) {
     let t = ManualTime(Arc::new(AtomicU64::new(EPOCH_MS as u64)));
-    let s = ShardedActorState::with_config_and_time_source(ShardConfig::with_shards(shards), t.clone());
+    let s = if perf {
+        let pc: redis_sim::production::PerformanceConfig = serde_json::from_str("{}").expect("default perf config");
+        ShardedActorState::with_perf_config_and_time_source(&pc, ShardConfig::with_shards(shards), t.clone())
+    } else {
+        ShardedActorState::with_config_and_time_source(ShardConfig::with_shards(shards), t.clone())
+    };
     (s, t)
 }
 
@@ -190,6 +200,18 @@ fn normalise(name: &str, t: Tree) -> Tree {
             p.sort_by_key(|x| format!("{:?}", x));
             Tree::Arr(Some(p))
         }
+        ("HSCAN" | "ZSCAN", Tree::Arr(Some(v))) if v.len() == 2 => {
+            // [cursor, [field, value, ...]]: the page is a set of pairs
+            let page = match &v[1] {
+                Tree::Arr(Some(items)) => {
+                    let mut p: Vec<Tree> = items.chunks(2).map(|c| Tree::Arr(Some(c.to_vec()))).collect();
+                    p.sort_by_key(|x| format!("{:?}", x));
+                    Tree::Arr(Some(p))
+                }
+                o => o.clone(),
+            };
+            Tree::Arr(Some(vec![v[0].clone(), page]))
+        }
         (n, Tree::Arr(Some(mut v))) if unordered(n) => {
             v.sort_by_key(|x| format!("{:?}", x));
             Tree::Arr(Some(v))
@@ -251,8 +273,11 @@ fn path_of_last_write(hist: &BTreeMap<Vec<u8>, Path>, k: &[u8]) -> String {
 
 /// Both twins execute the same ops; first divergence or None.
 async fn run(ops: &[Op], n: usize, mut seen: impl FnMut(&str, &Path, &str)) -> Option<Found> {
-    let (one, t1) = new_state(1);
-    let (many, tn) = new_state(n);
+    // half of the cases (decided by the case itself) build both servers from a PerformanceConfig, as the real
+    // server does; the other half from a bare ShardConfig
+    let perf = (ops.len() + n) % 2 == 0;
+    let (one, t1) = new_state_via(1, perf);
+    let (many, tn) = new_state_via(n, perf);
     let mut last_write: BTreeMap<Vec<u8>, Path> = BTreeMap::new();
     let mut shas: BTreeMap<usize, String> = BTreeMap::new();
     for (i, op) in ops.iter().enumerate() {
@@ -431,7 +456,16 @@ fn gen_ops(rng: &mut Rng, len: usize) -> Vec<Op> {
                     ops.push(Op::Cmd(vec![b("SET"), k, gen::pick(rng, &["a", "10", "", "hello"])], path));
                 }
             }
-            13 => ops.push(Op::Cmd(vec![b("KEYS"), gen::pick(rng, &["*", "k*", "{t}*"])], Path::Generic)),
+            13 => {
+                if rng.gen_bool(0.6) {
+                    ops.push(Op::Cmd(vec![b("KEYS"), gen::pick(rng, &["*", "k*", "{t}*", "k[0-9]", "[a-z]", "k\\*", "?"])], Path::Generic))
+                } else {
+                    // element cursors of one key: everything in one page (COUNT far above any generated collection)
+                    let k = b(keypool[rng.gen_range(0..keypool.len())]);
+                    let name = if rng.gen_bool(0.5) { "HSCAN" } else { "ZSCAN" };
+                    ops.push(Op::Cmd(vec![b(name), k, b("0"), b("COUNT"), b("100000")], Path::Generic))
+                }
+            }
             14 => ops.push(Op::Cmd(vec![b("DBSIZE")], Path::Generic)),
             15 => {
                 if rng.gen_bool(0.3) {
